@@ -13,6 +13,8 @@ streams
   mathmode: stacks of real context frames (group, ArgumentContext, command, math environment, \\ensuremath, \\mbox)
            pushed on a real Context: `Context.isMathMode` vs Model.isMathMode (the decision readArgumentAndSource
            takes before normalising an argument).
+  apptexts: histories of `Node.appendText(text, table or None)` calls on the nodes of ONE real document (the same runs
+           of characters with and without the table, in every order) vs Model.appendTexts.
   docsubs: histories of `TeXDocument(config)` creations with `disable-charsub` options in one process: the table of
            every document and the class table `TeXDocument.defaultCharsubs` afterwards vs Model.createDocs.
   extend : `Node.extend(nodes and fragments, setParent)` on real DOM nodes vs Model.extend (who is re-parented).
@@ -32,8 +34,8 @@ LEVEL_TEXT = ('Lean 4 theorems over a line-by-line model of the digestion protoc
               'EQUALS the reading of the stream: no loss, no duplication, no reordering; the invariant is proved preserved by paragraphs/norm/digest), *_no_dup_no_reorder (subsequence, unconditional), '
               'parse_total/digest_total (fuel adequacy: parse never runs out of fuel), par_no_par (deep), parent_labels_consistent (deep, unconditional), sections_nest (a unit holds only paragraphs and '
               'units of level strictly between its own and ENDSECTIONS, on sectioning-skeleton streams) + sections_absorb_deeper/sections_stop_at_not_deeper (every stream), paragraphs_partition, '
-              'mathmode_transparent/args_in_math_unsubstituted (argument nesting never changes the math-mode decision taken when an argument is read), extend_noparent_untouched/extend_setparent_labels (scratch fragments of fullTitle/fullTocEntry never re-parent), charsubs_table_per_document/docCharsubs_mem (the substitution table is a per-document copy: no history of earlier documents and disable-charsub options changes what a later document gets), charsubs_idempotent, charsubs_complete, charsubs_plain, charsubs_scope_nosub/charsubs_never_in_nosub, charsubs_applied_to_text_run, buffered_push_next/flat, parse_well_formed (the clauses together). '
-              'The model is tied to the code by exhaustive frame stacks on the real Context.isMathMode, histories of real TeXDocument creations with disable-charsub options, exhaustive short Node.extend calls on real DOM nodes, and by replaying, for generated documents, every real TeX.parse call (recorded item stream -> tree, shape/order/text/parent links) through the model, '
+              'mathmode_transparent/args_in_math_unsubstituted (argument nesting never changes the math-mode decision taken when an argument is read), extend_noparent_untouched/extend_setparent_labels (scratch fragments of fullTitle/fullTocEntry never re-parent), appendText_history_free/appendText_values/flushText_value (the value of a text node depends on its own run and its own table only), charsubs_table_per_document/docCharsubs_mem (the substitution table is a per-document copy: no history of earlier documents and disable-charsub options changes what a later document gets), charsubs_idempotent, charsubs_complete, charsubs_plain, charsubs_scope_nosub/charsubs_never_in_nosub, charsubs_applied_to_text_run, buffered_push_next/flat, parse_well_formed (the clauses together). '
+              'The model is tied to the code by exhaustive frame stacks on the real Context.isMathMode, histories of real TeXDocument creations with disable-charsub options, histories of real Node.appendText calls with and without the table on one document, exhaustive short Node.extend calls on real DOM nodes, and by replaying, for generated documents, every real TeX.parse call (recorded item stream -> tree, shape/order/text/parent links) through the model, '
               'and the whole statement is checked end-to-end on generated documents with unique marker words (doc7), documents processed one after the other in one process, some with a legal disable-charsub option; each tree is checked once after parsing and again after the read-only accesses a renderer makes (titles, toc entries, references, text content, source).')
 LEVEL_NOTE = ('Trusted: Lean kernel (propext, Classical.choice, Quot.sound), translator (levels, defaultCharsubs), the recording harness and its generators, the doc7 oracle, CPython. '
               'Not modelled: the expansion phase that produces the stream (C02/C05), digest overrides outside the model (Array rows/cells, \\verb, bibliography, index) which enter the model as '
@@ -424,6 +426,48 @@ class Gen:
         self.nopar = nopar      # allow a body without any paragraph break (known finding body-without-par: only via its witness in doc7)
         self.labels = 0
         self.features = set()
+        # phrases without marker words that recur in the document, in running text as well as in verbatim / math
+        # material (the same run of characters must be treated according to WHERE it stands, every time)
+        self.rep_text = rng.choice(self.REP_TEXT)
+        self.rep_math = rng.choice(self.REP_MATH)
+
+    NONASCII = '\u00e9\u00dc\u00c0\u00df\u00f1\u00f8\u0436\u03bb\u4e2d'     # letters outside ASCII: category 'other' for TeX
+    REP_TEXT = ["it's", '1--9', 'a---b', "``q''", "x--y's", "`z'"]
+    REP_MATH = ["f'", "g''", 'n--1']
+
+    def nword(self):
+        return self._decorate(self.word())
+
+    def _decorate(self, w):
+        """a marker word, sometimes with letters outside ASCII attached (they are ordinary text characters)"""
+        r = self.rng
+        if r.random() < 0.12:
+            w = r.choice(self.NONASCII) + w
+            self.features.add('nonascii')
+        if r.random() < 0.06:
+            w = w + r.choice(self.NONASCII)
+            self.features.add('nonascii')
+        return w
+
+    def glue(self, cw, fn):
+        """a control word followed by running text: usually a blank in between; a word starting with a non-ASCII
+        letter may follow directly (the control word ends at the first character that is not a letter for TeX)"""
+        r = self.rng
+        if r.random() < 0.3:
+            self.features.add('cw-nonascii')
+            first = r.choice(self.NONASCII) + self.word()
+            return cw + first + ' ' + fn()
+        return cw + ' ' + fn()
+
+    def repeated(self):
+        """one of the document's recurring phrases, as an argument, as verbatim text or as a formula"""
+        r = self.rng
+        self.features.add('repeated-phrase')
+        k = r.random()
+        if k < 0.30: return '\\verb|%s|' % r.choice([self.rep_text, self.rep_math])
+        if k < 0.45: return r.choice(['$%s$', '\\(%s\\)']) % self.rep_math
+        if k < 0.75: return r.choice(['\\emph{%s}', '\\textbf{%s}', '\\footnote{%s}', '\\mbox{%s}']) % self.rep_text
+        return r.choice(['\\emph{%s}', '\\textbf{%s}', '\\textit{%s}']) % self.rep_math
 
     def word(self):
         self.n += 1
@@ -448,6 +492,9 @@ class Gen:
                 elif k < 0.21: w = w + '---' + self.word(); self.features.add('em')
                 elif k < 0.24: w = w + "'s"
                 elif k < 0.27: w = w + ' -- ' + self.word(); self.features.add('spdash')
+                else: w = self._decorate(w)
+            else:
+                w = self._decorate(w)
             out.append(w)
         return ' '.join(out)
 
@@ -468,13 +515,17 @@ class Gen:
     def inline(self, depth):
         r = self.rng
         k = r.random()
+        if self.subs and r.random() < 0.07:
+            return self.repeated()
         if depth <= 0 or k < 0.45:
             return self.words()
         self.features.add('inline')
+        if r.random() < 0.04:
+            return self.glue(r.choice(['\\LaTeX', '\\TeX', '\\quad', '\\ldots']), lambda: self.words(1, 2))
         if k < 0.53: return '\\textbf{%s}' % self.inlines(depth - 1)
         if k < 0.58: return '\\emph{%s}' % self.inlines(depth - 1)
-        if k < 0.63: return '{\\bfseries %s}' % self.inlines(depth - 1)
-        if k < 0.67: return '{\\itshape %s}' % self.inlines(depth - 1)
+        if k < 0.63: return '{%s}' % self.glue('\\bfseries', lambda: self.inlines(depth - 1))
+        if k < 0.67: return '{%s}' % self.glue('\\itshape', lambda: self.inlines(depth - 1))
         if k < 0.72: return '\\footnote{%s}' % self.inlines(depth - 1)
         if k < 0.76: return '\\mbox{%s}' % self.inlines(depth - 1)
         if k < 0.79: return '\\fbox{%s}' % self.inlines(depth - 1)
@@ -537,7 +588,8 @@ class Gen:
         self.features.add('block')
         if k < 0.50:
             env = r.choice(['itemize', 'enumerate'])
-            items = ''.join('\\item %s\n' % (self.single_par_env(depth - 1).strip() if r.random() < 0.2 else self.blocks(depth - 1, 1, 2).strip())
+            items = ''.join('%s\n' % (('\\item ' + self.single_par_env(depth - 1).strip()) if r.random() < 0.2
+                                      else self.glue('\\item', lambda: self.blocks(depth - 1, 1, 2).strip()))
                             for _ in range(r.randint(1, 3)))
             return '\\begin{%s}\n%s\\end{%s}\n' % (env, items, env)
         if k < 0.58:
@@ -558,7 +610,7 @@ class Gen:
             return "\\begin{verbatim}\n%s ``x'' a--b %s's\n\\end{verbatim}\n" % (w, self.word())
         if k < 0.96:
             return '\\begin{figure}\n%s\\caption{%s}\n\\end{figure}\n' % (self.blocks(depth - 1, 1, 1), self.inlines(1))
-        return self.inlines(depth) + '\\par ' + self.inlines(1) + '\n\n'
+        return self.inlines(depth) + self.glue('\\par', lambda: self.inlines(1)) + '\n\n'
 
     def tabular(self, depth):
         """tabulars with 1-3 columns, with or without vertical rules in the column specification, and with
@@ -681,6 +733,14 @@ def generate(ctx):
     for i in range(200 if ctx.tier == 'quick' else 3000):
         t = [rng.choice('gaacmeb') for _ in range(rng.randint(5, 12))]
         yield Case('mathmode', ' '.join(t), {'frames': ''.join(t)})
+    # apptexts: every ordered pair of calls over six phrases x {table, None}, plus random histories of 3-6 calls
+    calls = [(f, p) for p in APP_PHRASES for f in (1, 0)]
+    for a in calls:
+        for b in calls:
+            yield apptexts_case([a, b])
+    for _ in range(150 if ctx.tier == 'quick' else 4000):
+        yield apptexts_case([(rng.randint(0, 1), rng.choice(APP_PHRASES) if rng.random() < 0.8 else gen_sub_string(rng))
+                             for _ in range(rng.randint(3, 6))])
     # docsubs: every history of up to 2 documents over single-source options (and none), plus random longer ones
     opts = [()] + [(x,) for x in ALL_SRC]
     hists = [h for k in (1, 2) for h in _it.product(opts, repeat=k)]
@@ -729,11 +789,37 @@ def corpus():
     # $\\mathbf{\\hat{x'}}$: math, mathbf, ArgumentContext, hat, ArgumentContext
     out.append(Case('mathmode', 'm c a c a', {'frames': 'mcaca'}, 'corpus'))
     out.append(Case('mathmode', 'm b a c a', {'frames': 'mbaca'}, 'corpus'))
+    # \\verb|it's| then \\emph{it's}; \\emph{1--9} then \\verb|1--9|
+    out.append(apptexts_case([(0, "it's"), (1, "it's")], 'corpus'))
+    out.append(apptexts_case([(1, '1--9'), (0, '1--9')], 'corpus'))
     # --disable-charsub "'" for one document, then a default document
     out.append(docsubs_case((("'",), ()), 'corpus'))
     # fullTocEntry: scratch fragment, extend([ref, ' ', title fragment], setParent=False)
     out.append(Case('extend', '1 0 0 | n n f2', {'args': ['n', 'n', 'f2'], 'isf': '1', 'hasp': '0', 'sp': '0'}, 'corpus'))
     return out
+
+
+APP_PHRASES = ["it's", '1--9', "f'", "``q''", 'a---b', 'plain']
+
+
+def apptexts_case(calls, origin='gen'):
+    line = ' | '.join(' '.join([str(f)] + [str(ord(c)) for c in p]) for f, p in calls)
+    return Case('apptexts', line, {'calls': [[f, p] for f, p in calls]}, origin)
+
+
+def impl_apptexts(calls):
+    from plasTeX import TeXDocument
+    doc = TeXDocument()
+    out = []
+    try:
+        for f, p in calls:
+            frag = doc.createDocumentFragment()
+            frag.appendText([doc.createTextNode(c) for c in p], doc.charsubs if f else None)
+            v = ''.join(str(x) for x in frag.childNodes)
+            out.append('.'.join(str(ord(c)) for c in v) if v else '-')
+    except Exception as e:
+        return 'err:' + type(e).__name__
+    return ';'.join(out)
 
 
 def docsubs_case(hist, origin='gen'):
@@ -824,6 +910,8 @@ def impl(case, aux):
         return impl_extend(case.meta)
     if case.stream == 'docsubs':
         return impl_docsubs(case.meta['hist'])
+    if case.stream == 'apptexts':
+        return impl_apptexts(case.meta['calls'])
     if case.stream == 'subs':
         from plasTeX import TeXDocument
         doc = TeXDocument()
@@ -848,7 +936,7 @@ def impl(case, aux):
 
 
 def judge(o):
-    if o.case.stream in ('mathmode', 'extend', 'docsubs'):
+    if o.case.stream in ('mathmode', 'extend', 'docsubs', 'apptexts'):
         o.corr_ok = (o.impl == o.model)
         o.prop_ok = (o.impl == o.spec)
         return
@@ -891,6 +979,9 @@ def nontrivial(o):
         return any(a != 'n' for a in o.case.meta['args'])
     if o.case.stream == 'docsubs':
         return len(o.case.meta['hist']) >= 2 and any(o.case.meta['hist'])
+    if o.case.stream == 'apptexts':
+        cs = o.case.meta['calls']
+        return len({f for f, _ in cs}) == 2 and any(c in p for _, p in cs for c in "`'-")
     if o.case.stream == 'subs':
         return any(c in o.case.meta['s'] for c in '`\'-')
     return o.model not in ('fuel', 'bad-op') and re.search(r':[esbli]:\d+:', o.case.line) is not None and 'e(' in o.model and ')e(' in o.model
@@ -906,6 +997,9 @@ def shrink(ctx, o, evaluate):
             if not r.prop_ok:
                 return r
     return o
+
+
+UNWRAPPABLE = ('quote', 'center', 'quotation', 'flushleft', 'flushright', 'verse', 'itemize', 'enumerate', 'description')
 
 
 def _chunks(body):
@@ -963,7 +1057,7 @@ def shrink_doc(src, fails, budget=400):
         unwrapped = False
         for k, c in enumerate(parts):
             mm = re.match(r'(?s)\s*\\begin\{([a-z*]+)\}(?:\{[^}]*\})?\n(.*)\n\\end\{\1\}\s*$', c)
-            if not mm or budget <= 0:
+            if not mm or budget <= 0 or mm.group(1) not in UNWRAPPABLE:
                 continue
             inner = re.sub(r'(?m)^\\item(\[[^\]]*\])? ?', '', mm.group(2))
             cand = '\n'.join(parts[:k] + [inner] + parts[k + 1:])
@@ -1150,7 +1244,8 @@ def doc7_check(src, markers, expect_subs=True, disable=()):
                 if any(c in SUBST_OUT for c in s):
                     problems.append('typographic substitution inside verbatim/mathematics: %r' % _ctx(s, SUBST_OUT))
             else:
-                for pat in ((("``", "''", '`W', "K'") if want_quotes else ()) + (('--',) if want_dashes else ())):
+                # after substitution no backtick, no apostrophe and no double hyphen is left (Lean: charsubs_complete)
+                for pat in ((("`", "'") if want_quotes else ()) + (('--',) if want_dashes else ())):
                     if pat in s:
                         problems.append('running text not substituted: %r' % _ctx(s, [pat]))
                         break
